@@ -848,10 +848,9 @@ class InterfaceClass(_InterfaceClassBase):
         if not all:
             return self.__attrs.keys()
 
-        r = self.__attrs.copy()
-
-        for base in self.__bases__:
-            r.update(dict.fromkeys(base.names(all)))
+        r = {}
+        for iface in self.__iro__:
+            r.update(dict.fromkeys(iface.names()))
 
         return r.keys()
 
@@ -865,11 +864,11 @@ class InterfaceClass(_InterfaceClassBase):
         if not all:
             return self.__attrs.items()
 
+        # The nearest definition in the resolution order wins, as in
+        # ``get``/``__getitem__``.
         r = {}
-        for base in self.__bases__[::-1]:
-            r.update(dict(base.namesAndDescriptions(all)))
-
-        r.update(self.__attrs)
+        for iface in reversed(self.__iro__):
+            r.update(dict(iface.namesAndDescriptions()))
 
         return r.items()
 
